@@ -16,7 +16,8 @@
 EXTENDS RingP, Json, SequencesExt
 
 CONSTANTS Mode,      \* "sym" | "num"
-          MaxN, MaxM
+          MaxN, MaxM,
+          CaseSet    \* "all": every driver case up to MaxN / MaxM;  "py": the lengths 1..12 used for the Python layer
 
 B == INSTANCE DualB WITH
         SAdd <- PAdd, SSub <- PSub, SMul <- PMul, SDiv <- PDiv, SNeg <- PNeg, SRecip <- PInv,
@@ -161,7 +162,15 @@ Cases ==
     \cup {[d |-> "partial_hessian", m |-> m, n |-> n] : m \in 0..IF MaxN > 3 THEN 3 ELSE MaxN, n \in 0..IF MaxN > 3 THEN 3 ELSE MaxN}
     \cup {[d |-> "third_partial_derivative_vec", n |-> n, i |-> i, j |-> j, k |-> k] :
              n \in 1..MaxN, i \in 1..MaxN, j \in 1..MaxN, k \in 1..MaxN}
-Init == c \in {cc \in Cases : cc.d = "third_partial_derivative_vec" => (cc.i <= cc.n /\ cc.j <= cc.n /\ cc.k <= cc.n)}
+\* the Python drivers dispatch on the input length (fixed-size classes up to 10 variables, dynamic beyond)
+CasesPy ==
+    {[d |-> "first_derivative"], [d |-> "second_derivative"], [d |-> "third_derivative"], [d |-> "second_partial_derivative"]}
+    \cup {[d |-> "gradient", n |-> n] : n \in 1..12}
+    \cup {[d |-> "jacobian", n |-> n, m |-> m] : n \in {1, 2, 3, 7, 10, 11}, m \in 1..2}
+    \cup {[d |-> "hessian", n |-> n] : n \in {1, 2, 3, 9, 10, 11, 12}}
+    \cup {[d |-> "partial_hessian", m |-> mn[1], n |-> mn[2]] : mn \in {<<1, 1>>, <<2, 3>>, <<5, 5>>, <<6, 2>>, <<3, 7>>}}
+    \cup {[d |-> "third_partial_derivative_vec", n |-> 3, i |-> i, j |-> j, k |-> k] : i \in 1..3, j \in 1..3, k \in 1..3}
+Init == IF CaseSet = "py" THEN c \in CasesPy ELSE c \in {cc \in Cases : cc.d = "third_partial_derivative_vec" => (cc.i <= cc.n /\ cc.j <= cc.n /\ cc.k <= cc.n)}
 Next == UNCHANGED c
 Spec == Init /\ [][Next]_c
 
@@ -186,7 +195,7 @@ Want(cc) ==
       [] cc.d = "partial_hessian" -> ExpPartialHessian(cc.m, cc.n)
       [] cc.d = "third_partial_derivative_vec" -> ExpThirdPartialVec(cc.n, cc.i, cc.j, cc.k)
 
-DriversCorrect == Got(c) = Want(c)
+DriversCorrect == CaseSet = "all" => Got(c) = Want(c)
 
 ---------------------------------------------------------------------------
 (* export ("num" mode): the closure (terms with integer coefficients), the point, the expected output *)
